@@ -4,7 +4,7 @@
 From Coq Require Import List Arith Bool NArith.
 From FFSM2 Require Import Model.TaskList Model.BitArray Model.BitStream Model.Plan Model.Ancestors Model.Machine
   Proofs.BitArrayProofs Proofs.TaskListProofs Proofs.TaskListRun Proofs.PlanProofs Proofs.MachineFrame Proofs.MachinePlan Proofs.MachineLife Proofs.GuardProofs Proofs.CycleProofs Proofs.PlanStep
-  Proofs.SerialProofs Proofs.LogProofs Proofs.MachineTop Model.Multi Generated.InitFacts Proofs.ConstructProofs Proofs.LifeMonitor Proofs.ActivationRounds Proofs.IndexSafety Proofs.FeatureProofs Model.Script Proofs.Contract Proofs.Histories Proofs.StatusBits.
+  Proofs.SerialProofs Proofs.LogProofs Proofs.MachineTop Model.Multi Generated.InitFacts Proofs.ConstructProofs Proofs.LifeMonitor Proofs.ActivationRounds Proofs.IndexSafety Proofs.FeatureProofs Model.Script Proofs.Contract Proofs.Histories Proofs.StatusBits Proofs.Worlds Model.Cxx Generated.LeafCode Proofs.LeafTactics Proofs.LeafConsts Proofs.LeafCodeTaskList.
 Import ListNotations.
 
 (* for every history: running with a logger attached at any point(s) and then forgetting the records equals running
@@ -31,7 +31,7 @@ Theorem C16_from_construction :
   forall (P : Type) (cfg : config) (orc orc' : oracle P),
          log_blind P orc orc' ->
          forall (lg : bool) (ops : list (api_op P)),
-         strip P (run P cfg orc' lg ops) = run P cfg orc false (map (detach_op P) ops).
+         strip P (Machine.run P cfg orc' lg ops) = Machine.run P cfg orc false (map (detach_op P) ops).
 Proof. exact (run_log_transparent). Qed.
 Print Assumptions C16_from_construction.
 
@@ -39,8 +39,8 @@ Theorem C16_cores_agree :
   forall (P : Type) (cfg : config) (orc orc' : oracle P),
          log_blind P orc orc' ->
          forall (lg : bool) (ops : list (api_op P)),
-         let l := co P (run P cfg orc' lg ops) in
-         let r := co P (run P cfg orc false (map (detach_op P) ops)) in
+         let l := co P (Machine.run P cfg orc' lg ops) in
+         let r := co P (Machine.run P cfg orc false (map (detach_op P) ops)) in
          active P l = active P r /\
          requested P l = requested P r /\
          request P l = request P r /\ previous P l = previous P r /\ plan P l = plan P r.
@@ -51,7 +51,8 @@ Theorem C16_trace_without_records :
   forall (P : Type) (cfg : config) (orc orc' : oracle P),
          log_blind P orc orc' ->
          forall (lg : bool) (ops : list (api_op P)),
-         erase P (tr P (run P cfg orc' lg ops)) = tr P (run P cfg orc false (map (detach_op P) ops)).
+         erase P (tr P (Machine.run P cfg orc' lg ops)) =
+         tr P (Machine.run P cfg orc false (map (detach_op P) ops)).
 Proof. exact (run_log_transparent_trace). Qed.
 Print Assumptions C16_trace_without_records.
 
@@ -67,7 +68,8 @@ Print Assumptions C16_one_step.
 (* faithfulness: with a logger attached, a delivery whose method is logged appends its method record first, before any
    user code of that delivery runs, and nothing but callbacks of that very (state, method) follow in the delivery *)
 Theorem C16_method_record_first :
-  forall (P : Type) (cfg : config) (orc : oracle P) (w : who) (m : method) (s : mstate P) (k : ctl P),
+  forall (P : Type) (cfg : config) (orc : oracle P) (w : who) (m : Ancestors.method) 
+           (s : mstate P) (k : ctl P),
          logging P cfg s = true ->
          logs cfg w m = true ->
          exists new : list (event P),
@@ -77,7 +79,8 @@ Proof. exact (deliver_log_adjacent). Qed.
 Print Assumptions C16_method_record_first.
 
 Theorem C16_no_record_otherwise :
-  forall (P : Type) (cfg : config) (orc : oracle P) (w : who) (m : method) (s : mstate P) (k : ctl P),
+  forall (P : Type) (cfg : config) (orc : oracle P) (w : who) (m : Ancestors.method) 
+           (s : mstate P) (k : ctl P),
          logging P cfg s && logs cfg w m = false ->
          exists new : list (event P),
            tr P (fst (deliver P cfg orc w m (s, k))) = new ++ tr P s /\ Forall (under P w m) new.
